@@ -4,7 +4,8 @@
 A unit is ``(spec, listener_script)`` with ``spec = (items, how, reassign[, shape])``:
     items     tuple of (kind, outcome): kind 'gate' (a loop future completed by the environment), 'done' (a loop future
               that is already resolved when it is handed over) or 'child' (a process launched from the step, which waits
-              for its own gate); outcome 'ok' | 'exc' | 'kill' (children only)
+              for its own gate); outcome 'ok' | 'exc' | 'kill' (children only) | 'cancel' (a future that gets cancelled; a
+              child that is killed by cancelling its future)
     shape     where the registering step sits in the outline: 'flat' (s1, s2, s3) | 'while' (while_(once)(s1), s2, s3) |
               'if' (if_(yes)(s1), s2, s3) | 'while-if' (while_(once)(if_(yes)(s1)), s2, s3)
     how       'return' (return ToContext(...)) | 'call' (self.to_context(...)) | 'both' (first item by call, rest returned)
@@ -166,14 +167,14 @@ class WcWorld(ctl.World):
 
     def killable(self) -> List[int]:
         return [i for i, c in sorted(self.children.items())
-                if self.items[i][1] == 'kill' and not c.has_terminated() and i not in self.kill_requested]
+                if self.items[i][1] in ('kill', 'cancel') and not c.has_terminated() and i not in self.kill_requested]
 
     def pending_gates(self) -> List[int]:
         out = []
         for g in self.gate_order:
             if self.gates[g].done():
                 continue
-            if g >= CHILD_GATE and self.items[g - CHILD_GATE][1] == 'kill' and (g - CHILD_GATE) not in self.kill_requested:
+            if g >= CHILD_GATE and self.items[g - CHILD_GATE][1] in ('kill', 'cancel') and (g - CHILD_GATE) not in self.kill_requested:
                 continue  # this child is going to be killed first; its step is let go afterwards
             out.append(g)
         return out
@@ -185,6 +186,8 @@ class WcWorld(ctl.World):
                 exc = ItemError(f'item-{g}')
                 self.item_errors[g] = exc
                 self.gates[g].set_exception(exc)
+            elif self.outcome_of_gate(g) == 'cancel':
+                self.gates[g].cancel()
             else:
                 self.gates[g].set_result(f'g{g}')
 
@@ -197,7 +200,10 @@ class WcWorld(ctl.World):
         def run() -> None:
             self.completion_order.append(('kill', i))
             self.kill_requested.add(i)
-            self.children[i].kill(f'kill-child-{i}')
+            if self.items[i][1] == 'cancel':
+                self.children[i].future().cancel()  # "cancelling the process's future has the same effect as kill()"
+            else:
+                self.children[i].kill(f'kill-child-{i}')
 
         return run
 
